@@ -34,6 +34,7 @@ from bounded.gen_f import DC, Base, Color, Sub, brief, cp, func, run  # noqa: F4
 from jsonargparse import ActionConfigFile, ActionParser, ActionYesNo, ArgumentParser, Namespace
 from jsonargparse.typing import Path_fr, PositiveInt
 
+PER_CLASS = 3
 LIMIT = 20       # seconds per call, thorough tier
 QUICK_LIMIT = 6  # seconds per call, quick tier (an ordinary call takes < 0.5 s)
 
@@ -267,23 +268,9 @@ PYVALS = [("None", lambda: None), ("True", lambda: True), ("1", lambda: 1), ("-1
           ("iter([])", lambda: iter([])), ("1+2j", lambda: complex(1, 2)), ("Decimal('1')", lambda: Decimal("1")), ("selfref-list", lambda: _selfref_list()),
           ("selfref-dict", lambda: _selfref_dict()), ("deep-list-3000", lambda: _deep_list(3000)), ("deep-dict-3000", lambda: _deep_dict(3000)), ("Color.red", lambda: Color.red),
           ("DC(1)", lambda: DC(1)), ("Base(1)", lambda: Base(1)), ("PosixPath", lambda: __import__("pathlib").Path("x")), ("bytearray", lambda: bytearray(b"x")),
-          ("BadStr", lambda: _BadStr()), ("BadEq", lambda: _BadEq()), ("str-subclass", lambda: _Str("1")), ("int-subclass", lambda: _Int(1)), ("dict-subclass", lambda: _Dict(x=1))]
+          ("str-subclass", lambda: _Str("1")), ("int-subclass", lambda: _Int(1)), ("dict-subclass", lambda: _Dict(x=1))]
 OBJ_KEYS = ["", ".", "..", "a.", ".a", "a..b", "K.", "K..x", "K.x", " ", "K ", "-K", "--K", "K+", "__path__", "__default_config__", "help", "print_config", "K.__path__",
             "K.class_path", "K.init_args", "K.init_args.x", "K.dict_kwargs", "K.0", "zzq", "zzq.k"]
-
-
-class _BadStr:
-    def __str__(self):
-        raise RuntimeError("str() of a config value failed")
-
-    __repr__ = __str__
-
-
-class _BadEq:
-    def __eq__(self, other):
-        raise RuntimeError("== on a config value failed")
-
-    __hash__ = object.__hash__
 
 
 class _Str(str):
@@ -374,7 +361,7 @@ def short(s, n=60):
 class Rec:
     def __init__(self):
         self.calls = []
-        self.stats = {"ok": 0, "ArgumentError": 0, "exit2": 0, "exit0": 0, "violations": 0}
+        self.stats = {"ok": 0, "ArgumentError": 0, "exit2": 0, "exit0": 0, "violations": 0, "unstable": 0}
 
     def check(self, ok, key, what="", case=None):
         self.calls.append(("check", bool(ok), key, "" if ok else what, None if ok else case))
@@ -391,50 +378,34 @@ def wants_exit0(argv):
     return False
 
 
-def judge(h, shape, eoe, method, canon, case, r, argv=None):
-    mode = "exit" if eoe else "raise"
-    h.nontrivial((shape, mode, method, canon))
-    case = dict(case, shape=shape + " (builder s_%s in bounded/b03_error_channel.py)" % shape, exit_on_error=eoe, method=method)
-    kind, what = None, ""
+def verdict(eoe, r, argv):
+    """The contract table.  Returns (kind, what, tag) for a violation, or (None, outcome class, '')."""
     if r["kind"] == "timeout":
-        kind, what, tag = "timeout", "no result within the time limit (20 s thorough / 6 s quick; an ordinary call takes < 0.5 s)", "Timeout"
-    elif r["kind"] == "ok":
+        return "timeout", "no result within the time limit (20 s thorough / 6 s quick; an ordinary call takes < 0.5 s)", "Timeout"
+    if r["kind"] == "ok":
         if not isinstance(r["value"], Namespace):
-            kind, what, tag = "notnamespace", f"returned {type(r['value']).__name__}", type(r["value"]).__name__
-        else:
-            h.stats["ok"] += 1
-    elif r["kind"] == "exc":
-        tag = f"{r['cls']}@{r['site']}"
+            return "notnamespace", f"returned {type(r['value']).__name__}", type(r["value"]).__name__
+        return None, "ok", ""
+    if r["kind"] == "exc":
+        tag = f"{r['cls']}@{r['site']}" if r["cls"] != "RecursionError" else "RecursionError"  # (the frame where the stack limit is hit is arbitrary)
         if r["cls"] != "ArgumentError":
-            kind, what = "escape", f"{r['cls']} escaped from {method}: {r['msg'][:200]}"
-        elif eoe:
-            kind, what = "wrongchannel", f"exit_on_error=True but ArgumentError was raised instead of usage + exit(2): {r['msg'][:200]}"
-        else:
-            h.stats["ArgumentError"] += 1
-    else:
-        code = r["code"]
-        tag = f"exit({code})"
-        if code == 0:
-            if argv is not None and wants_exit0(argv):
-                h.stats["exit0"] += 1
-            else:
-                kind, what = "badexit", "exit status 0 although neither help nor print_config was requested"
-        elif code == 2:
-            if not eoe:
-                kind, what = "wrongchannel", f"exit_on_error=False but the process was exited with status 2: {r['err'][-200:]}"
-            elif "usage:" not in r["err"] or "error:" not in r["err"]:
-                kind, what = "badexit", f"exit status 2 without usage + error line on stderr: {r['err'][-200:]!r}"
-            else:
-                h.stats["exit2"] += 1
-        else:
-            kind, what = "badexit", f"exit status {code!r}"
-    if kind is None:
-        h.check(True, "")
-        return True
-    h.stats["violations"] += 1
-    key = f"c03:{kind}:{method}:{tag}:{canon}"
-    h.check(False, key[:149], what, case)
-    return False
+            return "escape", f"{r['cls']} escaped: {r['msg'][:200]}", tag
+        if eoe:
+            return "wrongchannel", f"exit_on_error=True but ArgumentError was raised instead of usage + exit(2): {r['msg'][:200]}", tag
+        return None, "ArgumentError", ""
+    code = r["code"]
+    tag = f"exit({code})"
+    if code == 0:
+        if argv is not None and wants_exit0(argv):
+            return None, "exit0", ""
+        return "badexit", "exit status 0 although neither help nor print_config was requested", tag
+    if code == 2:
+        if not eoe:
+            return "wrongchannel", f"exit_on_error=False but the process was exited with status 2: {r['err'][-200:]}", tag
+        if "usage:" not in r["err"] or "error:" not in r["err"]:
+            return "badexit", f"exit status 2 without usage + error line on stderr: {r['err'][-200:]!r}", tag
+        return None, "exit2", ""
+    return "badexit", f"exit status {code!r}", tag
 
 
 def canon_name(variant, label):
@@ -446,23 +417,33 @@ def real_name(variant, name):
 
 
 ALL_VALUES = V_SCALAR + V_BROKEN + V_TAGS + V_CLASS + V_PATHS
+LOADER_VALUES = V_SCALAR + V_BROKEN + V_TAGS   # their fate is mostly decided by the loader, whatever the option's type
 
 # Self-referential MAPPINGS make `_apply_actions` loop without end (each such call costs the whole time limit), so the quick tier
 # uses them at a fixed, small set of places; the thorough tier uses them everywhere.
 SELFREF = {"&x {a: *x}", "&a {i: *a}", "selfref-dict"}
 QUICK_MALFORMED_VALUES = ["1", "", "._", "{", "!!timestamp x", cp("Leaf"), "<missing>", '{"class_path": 1}']
 QUICK_EXIT_VALUES = QUICK_VALUES + V_TAGS[:12]
+THOROUGH_MALFORMED_VALUES = QUICK_VALUES + V_TAGS + V_BROKEN
+CLASSY = ("class", "Callable", "Type", "dataclass", "Any", "group", "inner", "Union", "cfg", "Dict", "List")
 
 
 class Ctx:
     def __init__(self, job, files):
         self.si, self.eoe, self.part, self.ci, self.nc, self.thorough, self.seed = job
-        self.shape, self.build, allnames = SHAPES[self.si]
-        self.names = allnames[self.ci::self.nc]
+        self.shape, self.build, self.allnames = SHAPES[self.si]
+        self.names = self.allnames[self.ci::self.nc]
         self.first = self.ci == 0
         self.files = files
         self.h = Rec()
         self.limit = LIMIT if self.thorough else QUICK_LIMIT
+        self.cached = None
+        self.unstable = 0
+
+    # -- input selection
+    def rep(self, name):
+        """The representative options of a shape get the complete loader-level value lists in the quick tier."""
+        return name in [n for n, _ in self.allnames[:3]]
 
     def selfref_ok(self, v, where):
         """May the self-referential mapping `v` be used here? (always in thorough; quick: flat shape in raise mode, and parse_string of every shape)"""
@@ -470,24 +451,59 @@ class Ctx:
             return True
         if self.eoe:
             return self.shape == "flat" and where == "parse_string"
-        return self.shape == "flat" or where == "parse_string"
+        return (self.shape == "flat" and where != "object") or where in ("parse_string", "object-first")
 
-    def values(self):
+    def values(self, name, label):
         if self.thorough:
             return ALL_VALUES
+        return [v for v in self.values_quick(name, label) if v not in SELFREF or self.rep(name)]
+
+    def values_quick(self, name, label):
         if self.eoe:
             return QUICK_EXIT_VALUES
-        if self.shape in ("jsonnet", "omegaconf"):
-            return [v for v in ALL_VALUES if v in QUICK_VALUES or v in V_TAGS or v in V_BROKEN]
-        return ALL_VALUES
+        out = list(LOADER_VALUES) if self.rep(name) and self.shape not in ("omegaconf",) else list(QUICK_VALUES)
+        if any(t in label for t in CLASSY) and self.shape not in ("jsonnet", "omegaconf"):
+            out += [v for v in V_CLASS if v not in out]
+        if any(t in label for t in ("cfg", "Path", "Any", "inner")):
+            out += [v for v in V_PATHS if v not in out]
+        return out
 
-    def args(self, canon, argv, case=None):
+    # -- running one input
+    def parser(self):
+        if self.cached is None:
+            self.cached = self.build(self.eoe)
+        return self.cached
+
+    def call(self, method, canon, case, fn, argv=None, stdin="", trig=None, own_parser=False):
+        """fn(parser) performs the call.  The parser is reused between inputs as long as nothing unusual happened; every violation
+        is re-run on a FRESH parser and reported only if it shows there too (so that each reported case is self-contained)."""
+        h = self.h
+        mode = "exit" if self.eoe else "raise"
+        h.nontrivial((self.shape, mode, method, canon))
+        reuse = not own_parser and not (argv is not None and wants_exit0(argv))
+        p = self.parser() if reuse else (None if own_parser else self.build(self.eoe))
+        r = run(lambda: fn(p), limit=self.limit, stdin=stdin)
+        kind, what, tag = verdict(self.eoe, r, argv)
+        if kind is not None and reuse:
+            self.cached = None
+            r = run(lambda: fn(self.build(self.eoe)), limit=self.limit, stdin=stdin)
+            kind2, what, tag = verdict(self.eoe, r, argv)
+            if kind2 is None:
+                self.unstable += 1
+            kind = kind2
+        if kind is None:
+            h.stats[what] += 1
+            h.check(True, "")
+            return
+        h.stats["violations"] += 1
+        case = dict(case, shape=self.shape + " (builder s_%s in bounded/b03_error_channel.py)" % self.shape, exit_on_error=self.eoe, method=method, input=canon)
+        if argv is not None:
+            case["argv"] = list(argv)
+        h.check(False, f"c03:{kind}:{tag}:{method}:{trig if trig is not None else canon}"[:149], f"{method}: {what}", case)
+
+    def args(self, canon, argv, case=None, trig=None):
         argv = list(argv)
-        r = run(lambda: self.build(self.eoe).parse_args(list(argv)), limit=self.limit, stdin="i: 1\n")
-        judge(self.h, self.shape, self.eoe, "parse_args", canon, dict(case or {}, argv=argv), r, argv)
-
-    def call(self, method, canon, case, thunk, stdin=""):
-        judge(self.h, self.shape, self.eoe, method, canon, case, run(thunk, limit=self.limit, stdin=stdin))
+        self.call("parse_args", canon, case or {}, lambda p: p.parse_args(list(argv)), argv=argv, stdin="i: 1\n", trig=trig)
 
 
 def work(job):
@@ -502,6 +518,7 @@ def work(job):
         finally:
             os.chdir(cwd)
             os.chmod(files.map["<unreadable>"], 0o600)
+    c.h.stats["unstable"] = c.unstable
     return c.h
 
 
@@ -520,25 +537,25 @@ def leaf(name):
 
 
 def do_argv(c):
-    """known option x every value (form --name=value); a second form (--name value) for a sub-list; the hand-written sequences."""
+    """known option x value (form --name=value); a second form (--name value) for a sub-list; the hand-written sequences."""
     for name, label in c.names:
-        for v in c.values():
+        for v in c.values(name, label):
             if not c.selfref_ok(v, "argv"):
                 continue
             rv = c.files.sub(v)
-            c.args(f"--<{label}>={short(v)}", sub_argv(c.shape, name, f"--{leaf(name)}={rv}"))
+            c.args(f"--<{label}>={short(v)}", sub_argv(c.shape, name, f"--{leaf(name)}={rv}"), trig="=" + short(v))
             if c.thorough or (v in QUICK_VALUES and not c.eoe):
-                c.args(f"--<{label}> {short(v)}", sub_argv(c.shape, name, f"--{leaf(name)}", rv))
+                c.args(f"--<{label}> {short(v)}", sub_argv(c.shape, name, f"--{leaf(name)}", rv), trig=" " + short(v))
     if c.first:
         for seq in SEQUENCES:
             c.args("seq:" + short(" ".join(seq), 90), [c.files.sub(a) for a in seq])
 
 
 def do_argv_malformed(c):
-    values = ALL_VALUES if c.thorough else QUICK_MALFORMED_VALUES[:2] if c.eoe else QUICK_MALFORMED_VALUES
-    names = c.names
+    values = THOROUGH_MALFORMED_VALUES if c.thorough else QUICK_MALFORMED_VALUES[:3] if c.eoe else QUICK_MALFORMED_VALUES
+    names = c.names if c.thorough else [(n, l) for n, l in c.names if (n, l) in c.allnames[:5]]
     if c.shape == "subcommands":
-        names = [(n, l) for n, l in names if n.split(".")[0] not in ("fit", "test", "subcommand") or n in ("fit.lr", "fit.model", "fit.b.q")]
+        names = [(n, l) for n, l in c.names if n in ("cfg", "v", "fit.lr", "fit.model", "fit.b.q")]
     for name, label in names:
         for variant in NAME_VARIANTS[1:]:
             opt = real_name(variant, leaf(name))
@@ -548,9 +565,9 @@ def do_argv_malformed(c):
                 if not c.selfref_ok(v, "argv"):
                     continue
                 rv = c.files.sub(v)
-                c.args(f"{cn}={short(v)}", sub_argv(c.shape, name, f"{opt}={rv}"))
-                if c.thorough or v in ("1", ""):
-                    c.args(f"{cn} {short(v)}", sub_argv(c.shape, name, opt, rv))
+                c.args(f"{cn}={short(v)}", sub_argv(c.shape, name, f"{opt}={rv}"), trig=f"{variant}={short(v)}")
+                if c.thorough and v in QUICK_VALUES or v in ("1", ""):
+                    c.args(f"{cn} {short(v)}", sub_argv(c.shape, name, opt, rv), trig=f"{variant} {short(v)}")
     if c.first:
         for g in GLOBAL_NAMES:
             c.args(short(g), [g])
@@ -578,9 +595,10 @@ def do_text(c):
     """parse_string / parse_path / --cfg=<file> / default_config_files / parse_env(APP_CFG) / parse_env(APP_<NAME>) / config paths."""
     build, eoe, files = c.build, c.eoe, c.files
 
-    def ways(text, canon, heavy, selfref=False):
+    def ways(text, canon, heavy, selfref=False, trig=None):
+        t = trig if trig is not None else canon
         if not selfref or c.selfref_ok(next(iter(SELFREF)), "parse_string"):
-            c.call("parse_string", canon, {"text": text}, lambda: build(eoe).parse_string(text))
+            c.call("parse_string", canon, {"text": text}, lambda p: p.parse_string(text), trig=t)
         if selfref and not c.selfref_ok(next(iter(SELFREF)), "other"):
             return
         if heavy:
@@ -589,30 +607,30 @@ def do_text(c):
             except (UnicodeError, ValueError):
                 path = None
             if path:
-                c.call("parse_path", "file:" + canon, {"file_content": text}, lambda: build(eoe).parse_path(path))
-                c.args("--cfg=file:" + canon, [f"--cfg={path}"], {"file_content": text})
+                c.call("parse_path", "file:" + canon, {"file_content": text}, lambda p: p.parse_path(path), trig="file:" + t)
+                c.args("--cfg=file:" + canon, [f"--cfg={path}"], {"file_content": text}, trig="--cfg=file:" + t)
                 c.call("parse_args", "default_config_files:" + canon, {"default_config_files": ["<file>"], "file_content": text, "argv": []},
-                       lambda: build(eoe, default_config_files=[path]).parse_args([]))
+                       lambda p: build(eoe, default_config_files=[path]).parse_args([]), own_parser=True, trig="default_config_files:" + t)
             if "\x00" not in text:
-                c.call("parse_env", "APP_CFG=" + canon, {"env": {"APP_CFG": text}}, lambda: build(eoe).parse_env({"APP_CFG": text}))
+                c.call("parse_env", "APP_CFG=" + canon, {"env": {"APP_CFG": text}}, lambda p: p.parse_env({"APP_CFG": text}), trig="APP_CFG=" + t)
 
     if c.first:
         for text in TEXT_GLOBAL:
-            ways(text, short(text), c.thorough or not eoe, selfref=text in SELFREF)
+            ways(text, short(text), c.thorough or (not eoe and c.shape in ("flat", "subcommands", "jsonnet")), selfref=text in SELFREF)
         # paths given directly to parse_path / as default config file
         for v in V_PATHS + ["", " ", "-", "\n", "\ud800", "<good>\x00"]:
             rv = files.sub(v)
-            c.call("parse_path", "path:" + short(v), {"path": rv}, lambda: build(eoe).parse_path(rv), stdin="{")
+            c.call("parse_path", "path:" + short(v), {"path": rv}, lambda p: p.parse_path(rv), stdin="{")
             c.call("parse_args", "default_config_files:path:" + short(v), {"default_config_files": [rv], "argv": []},
-                   lambda: build(eoe, default_config_files=[rv]).parse_args([]))
+                   lambda p: build(eoe, default_config_files=[rv]).parse_args([]), own_parser=True)
     for name, label in c.names:
-        for v in c.values():
-            if not c.thorough and not (v in QUICK_VALUES or v in V_TAGS or v in V_BROKEN[:20] or v in SELFREF):
+        for v in c.values(name, label):
+            if not c.thorough and v in V_PATHS:
                 continue
             rv = files.sub(v)
-            ways(nest(name, rv), f"<{label}>: {short(v)}", c.thorough or (v in QUICK_VALUES[:8] and not eoe), selfref=v in SELFREF)
+            ways(nest(name, rv), f"<{label}>: {short(v)}", c.thorough or (v in QUICK_VALUES[:8] and not eoe and c.rep(name)), selfref=v in SELFREF, trig=": " + short(v))
             if "." in name and (c.thorough or v in QUICK_VALUES) and v not in SELFREF:
-                ways(f"{name}: {rv}", f"dotted <{label}>: {short(v)}", False)
+                ways(f"{name}: {rv}", f"dotted <{label}>: {short(v)}", False, trig="dotted: " + short(v))
             # the per-argument environment variable
             if "\x00" not in rv and c.selfref_ok(v, "env"):
                 env = {"APP_" + name.replace(".", "__").upper(): rv}
@@ -620,7 +638,7 @@ def do_text(c):
                     env["APP_SUBCOMMAND"] = name.split(".")[0]
                     if name.split(".")[1:2] in (["a"], ["b"]):
                         env["APP_FIT__SUBCOMMAND"] = name.split(".")[1]
-                c.call("parse_env", f"APP_<{label}>={short(v)}", {"env": env}, lambda: build(eoe).parse_env(dict(env)))
+                c.call("parse_env", f"APP_<{label}>={short(v)}", {"env": env}, lambda p: p.parse_env(dict(env)), trig="APP_<>=" + short(v))
 
 
 def put(obj, dotted, value):
@@ -632,62 +650,66 @@ def put(obj, dotted, value):
     return obj
 
 
+QUICK_PYVALS = ("None", "1", "'x'", "{}", "[]", "object()", "{'class_path':1}", "{'x':1,'inner':1}", "[None]", "'._'", "{1:2}", "selfref-list", "b'x'")
+
+
 def do_object(c):
-    build, eoe = c.build, c.eoe
+    eoe = c.eoe
     few = [PYVALS[i] for i in (0, 2, 9, 17, 18)]  # None, 1, 'x', {}, {'a': 1}
     for name, label in c.names:
         for vname, mk in PYVALS:
-            if not c.selfref_ok(vname, "object"):
+            if not c.selfref_ok(vname, "object-first" if (name, label) == c.allnames[1] else "object"):
                 continue
-            if eoe and not c.thorough and vname not in ("None", "'x'", "{}", "object()", "{'class_path':1}", "{'x':1,'inner':1}", "[None]", "'._'"):
+            if not c.thorough and vname not in QUICK_PYVALS and (eoe or not (c.rep(name) or any(t in label for t in CLASSY))):
                 continue
             for style in ("nested", "dotted"):
                 if style == "dotted" and "." not in name:
                     continue
 
-                def go():
+                def go(p):
                     v = mk()
-                    return build(eoe).parse_object(put({}, name, v) if style == "nested" else {name: v})
-                c.call("parse_object", f"{style}:<{label}>={vname}", {"cfg_obj": f"{{{name!r}: {vname}}} ({style})"}, go)
+                    return p.parse_object(put({}, name, v) if style == "nested" else {name: v})
+                c.call("parse_object", f"{style}:<{label}>={vname}", {"cfg_obj": f"{{{name!r}: {vname}}} ({style})"}, go, trig=f"<{label}>={vname}")
             if c.thorough or vname in ("None", "1", "'x'", "{}", "[]", "object()", "{'class_path':1}"):
-                def go_ns():
+                def go_ns(p):
                     ns = Namespace()
                     ns[name] = mk()
-                    return build(eoe).parse_object(ns)
-                c.call("parse_object", f"namespace:<{label}>={vname}", {"cfg_obj": f"Namespace with [{name!r}] = {vname}"}, go_ns)
+                    return p.parse_object(ns)
+                c.call("parse_object", f"namespace:<{label}>={vname}", {"cfg_obj": f"Namespace with [{name!r}] = {vname}"}, go_ns, trig=f"<{label}>={vname}")
         for kt in OBJ_KEYS:
             if "K" not in kt:
                 continue
             key = kt.replace("K", name)
-            for vname, mk in (few if c.thorough or not eoe else few[:2]):
-                c.call("parse_object", f"key:{kt.replace('K', '<' + label + '>')}={vname}", {"cfg_obj": f"{{{key!r}: {vname}}}"}, lambda: build(eoe).parse_object({key: mk()}))
+            for vname, mk in (few if c.thorough else few[1:4:2] if not eoe else few[1:2]):
+                c.call("parse_object", f"key:{kt.replace('K', '<' + label + '>')}={vname}", {"cfg_obj": f"{{{key!r}: {vname}}}"}, lambda p: p.parse_object({key: mk()}),
+                       trig=f"key:{kt}={vname}")
     if c.first:
         for kt in OBJ_KEYS:
             if "K" in kt:
                 continue
             for vname, mk in few:
-                c.call("parse_object", f"key:{short(kt)}={vname}", {"cfg_obj": f"{{{kt!r}: {vname}}}"}, lambda: build(eoe).parse_object({kt: mk()}))
-        c.call("parse_object", "empty", {"cfg_obj": {}}, lambda: build(eoe).parse_object({}))
+                c.call("parse_object", f"key:{short(kt)}={vname}", {"cfg_obj": f"{{{kt!r}: {vname}}}"}, lambda p: p.parse_object({kt: mk()}))
+        c.call("parse_object", "empty", {"cfg_obj": {}}, lambda p: p.parse_object({}))
         c.args("empty", [])
-        c.call("parse_env", "empty", {"env": {}}, lambda: build(eoe).parse_env({}))
-        c.call("parse_args", "non-str-argv", {"argv": [1]}, lambda: build(eoe).parse_args([1]))
+        c.call("parse_env", "empty", {"env": {}}, lambda p: p.parse_env({}))
+        c.call("parse_args", "non-str-argv", {"argv": [1]}, lambda p: p.parse_args([1]))
 
 
 def do_random(c):
     """thorough only: seeded random argv lists of 1-4 options from the whole grammar."""
     rng = random.Random(c.seed * 7919 + c.si * 64 + c.ci * 2 + int(c.eoe))
-    allnames = SHAPES[c.si][2]
+    pool = [x for x in ALL_VALUES if x not in SELFREF]
     for n in range(400):
         argv = []
         for _ in range(rng.randint(1, 4)):
             if rng.random() < 0.15:
                 tok = rng.choice(GLOBAL_NAMES)
             else:
-                name, _label = rng.choice(allnames)
+                name, _label = rng.choice(c.allnames)
                 tok = real_name(rng.choice(NAME_VARIANTS), leaf(name))
                 if c.shape == "subcommands" and name.split(".")[0] in ("fit", "test") and rng.random() < 0.8:
                     argv += name.split(".")[:-1]
-            v = c.files.sub(rng.choice([x for x in ALL_VALUES if x not in SELFREF]))
+            v = c.files.sub(rng.choice(pool))
             r = rng.random()
             if r < 0.6:
                 argv.append(tok + "=" + v)
@@ -700,17 +722,18 @@ def do_random(c):
 
 def main():
     h = Harness("b03_error_channel", rule=(
-        "7 parser shapes x both exit_on_error modes x {known option x ~330 values in 2 argv forms; 30 malformed spellings of every option + 34 global tokens x 8 "
-        "values (all values in thorough); ~190 hand-written multi-option sequences; ~140 config documents + (key: value) documents through parse_string, parse_path, "
+        "7 parser shapes x both exit_on_error modes x {known option x up to ~330 values in 2 argv forms; 30 malformed spellings of the options + 34 global tokens x 8 "
+        "values (100 in thorough); ~190 hand-written multi-option sequences; ~140 config documents + (key: value) documents through parse_string, parse_path, "
         "--cfg=<file>, default_config_files, APP_CFG; per-argument environment variables; 26 kinds of config path; parse_object with 66 Python values at every key, "
-        "26 malformed keys}; quick tier: exit mode on a sub-list of values; non-trivial = distinct (shape, mode, method, canonical input) - every one is a call of a "
-        "public parse method on a non-empty input"))
+        "26 malformed keys}; quick tier: the full loader-level value lists on 3 representative options per shape, class values on class-like options, a sub-list "
+        "elsewhere and in exit mode; non-trivial = distinct (shape, mode, method, canonical input) - every one is a call of a public parse method"))
     saved_env = dict(os.environ)
     parts = ["text", "argv", "argv2", "object"] + (["random"] if h.thorough else [])
     jobs = []
     for part in parts:
         for si in range(len(SHAPES)):
-            nc = 4 if part == "random" else max(1, (len(SHAPES[si][2]) + 1) // 2) if h.thorough or part != "object" else max(1, len(SHAPES[si][2]) // 4)
+            n = len(SHAPES[si][2])
+            nc = 4 if part == "random" else n if h.thorough else max(1, n // 2)
             for eoe in (False, True):
                 for ci in range(nc):
                     jobs.append((si, eoe, part, ci, nc, h.thorough, h.seed))
@@ -724,9 +747,21 @@ def main():
     for n, r in zip(sched, res):
         results[n] = r
     stats = {}
+    # One defect class = (kind, exception@site).  At most PER_CLASS distinct failing inputs of a class become violation keys (all of them match
+    # a regex on the class prefix); the further failing inputs of the class are failing evaluations too, and are counted in the notes.
+    listed, extra = {}, {}
     for rec in results:
         for c in rec.calls:
             if c[0] == "check":
+                if not c[1]:
+                    cls = ":".join(c[2].split(":")[:3])
+                    keys = listed.setdefault(cls, [])
+                    if c[2] not in keys:
+                        if len(keys) >= PER_CLASS:
+                            extra.setdefault(cls, set()).add(c[2])
+                            h.evaluations += 1
+                            continue
+                        keys.append(c[2])
                 h.check(c[1], c[2], c[3], c[4])
             else:
                 h.nontrivial(c[1])
@@ -734,7 +769,11 @@ def main():
             stats[k] = stats.get(k, 0) + v
     os.environ.clear()
     os.environ.update(saved_env)
-    h.note(f"outcomes: {stats}; distinct violation keys: {len(h.viol_keys)} (the evidence file lists at most 200 of them, in enumeration order)")
+    h.note(f"outcomes: {stats}; defect classes (kind:exception@site): {len(listed)}; violation keys listed: {len(h.viol_keys)} (at most {PER_CLASS} per class)")
+    if extra:
+        h.note("further distinct failing inputs per class, not listed as keys: " + ", ".join(f"{k[4:]}: {len(v)}" for k, v in sorted(extra.items())))
+    if stats.get("unstable"):
+        h.note(f"{stats['unstable']} violations seen on a re-used parser did not show on a fresh parser and were NOT reported (history dependence is C09's subject)")
     h.check(stats.get("ok", 0) > 0 and stats.get("ArgumentError", 0) > 0 and stats.get("exit2", 0) > 0 and stats.get("exit0", 0) > 0, "c03:vacuity",
             f"one of the outcome classes never occurred: {stats}")
     h.sample({"shapes": [s[0] for s in SHAPES], "example argv": ["--m.init_args.req=._"], "example text": "i: !!timestamp x"})
@@ -742,7 +781,7 @@ def main():
         f"{len(SHAPES)} shapes x 2 modes; {len(ALL_VALUES)} values; {len(NAME_VARIANTS)} spellings per option; {len(GLOBAL_NAMES)} global tokens; {len(SEQUENCES)} sequences; "
         f"{len(TEXT_GLOBAL)} documents; {len(PYVALS)} Python values; single option per argv except the sequences; time limit per call "
         + (f"{LIMIT} s; + 400 seeded random argv lists (1-4 options) x 4 per shape and mode" if h.thorough else
-           f"{QUICK_LIMIT} s; exit mode, malformed spellings and self-referential mappings on sub-lists (see QUICK_* in the source)"))))
+           f"{QUICK_LIMIT} s; exit mode, malformed spellings and self-referential mappings on sub-lists (see Ctx.values / QUICK_* in the source)"))))
 
 
 if __name__ == "__main__":
